@@ -343,6 +343,17 @@ class Interp:
             if nm == "extend":
                 return self.native(f, (_m.iter_concrete(self, args[0]),), {})
             return self.native(f, args, kwargs)
+        if type(s) in (list, tuple) and nm in ("index", "count") and len(args) == 1 and not kwargs:
+            hits = 0
+            for i, x in enumerate(s):
+                r = _m.eq(self, x, args[0])
+                if r is True or (r is not False and self.truth(r)):
+                    if nm == "index":
+                        return i
+                    hits += 1
+            if nm == "index":
+                raise PyRaise(ValueError("value is not in list"))
+            return hits
         if type(s) is dict and nm in ("get", "setdefault", "pop", "items", "keys", "values", "copy", "clear", "update"):
             if _m.SYMKEYS in s:
                 raise OutOfSubset(f"dict.{nm} on a dict with symbolic keys")
